@@ -301,8 +301,13 @@ def one_run(job):
     out = {"iso3": job["iso3"], "option": job["option"]}
     try:
         t = table()
-        rows = t[t["iso3"] == job["iso3"]]
-        country_data = rows.iloc[0].copy()
+        country_data = None
+        for _, row in t.iterrows():   # exactly as run_model_no_trade does (python floats, not np.float64 cells)
+            if row["iso3"] == job["iso3"]:
+                country_data = row
+                break
+        if country_data is None:
+            raise KeyError(job["iso3"])
         r = ScenarioRunnerNoTrade()
         country_data = r.apply_custom_parameters(country_data, opt)
         r.verify_country_data(country_data)
